@@ -107,6 +107,51 @@ func (e *emitter) c16StmtList(s *source, rel, goName, leanName string) {
 	e.stringList(leanName, "statements of `"+goName+"` in "+rel+" (locking, logging, statistics dropped)", out)
 }
 
+var c16LockCall = regexp.MustCompile(`^(defer )?\w+(\.\w+)*\.(Lock|Unlock|RLock|RUnlock)\(\)$`)
+
+// c16LockFrame emits where a method takes and releases its lock: the lock statements verbatim, the
+// statements executed while the lock is held collapsed into one "body" token (their text is pinned by the
+// statement lists), and every statement outside the locked region verbatim (it must not touch shared
+// state). A lock call nested in a compound statement is reported as "nested: …".
+func (e *emitter) c16LockFrame(s *source, rel, goName, leanName string) {
+	fd := s.findFunc(rel, goName)
+	if fd == nil {
+		e.errors = append(e.errors, "function "+goName+" not found in "+rel)
+		e.stringList(leanName, "MISSING: "+goName+" in "+rel, []string{"MISSING"})
+		return
+	}
+	var out []string
+	held := false
+	for _, st := range fd.Body.List {
+		txt := s.src(st)
+		if c16LockCall.MatchString(txt) {
+			out = append(out, txt)
+			if strings.HasPrefix(txt, "defer ") {
+				continue
+			}
+			held = strings.HasSuffix(txt, "Lock()") && !strings.HasSuffix(txt, "Unlock()")
+			continue
+		}
+		// lock calls hidden inside compound statements
+		ast.Inspect(st, func(n ast.Node) bool {
+			if c, ok := n.(*ast.CallExpr); ok {
+				if t := s.src(c); c16LockCall.MatchString(t) {
+					out = append(out, "nested: "+t)
+				}
+			}
+			return true
+		})
+		if held {
+			if len(out) == 0 || out[len(out)-1] != "body" {
+				out = append(out, "body")
+			}
+		} else {
+			out = append(out, strings.Join(strings.Fields(txt), " "))
+		}
+	}
+	e.stringList(leanName, "lock frame of `"+goName+"` in "+rel+" (lock statements, `body` = statements under the lock, statements outside verbatim)", out)
+}
+
 func init() {
 	register("C16", func(s *source, e *emitter) {
 		const (
@@ -168,6 +213,29 @@ func init() {
 		e.c16StmtList(s, ca, "keyLru.remove", "lruRemoveStmts")
 		e.c16StmtList(s, ca, "keyLru.removeOldest", "lruRemoveOldestStmts")
 		e.c16StmtList(s, ca, "keyLru.removeElement", "lruRemoveElementStmts")
+		// statistics: Get / Take with their stats calls kept (hit / miss accounting of the driver's monitor)
+		c16DropSaved := c16Drop
+		c16Drop = regexp.MustCompile(`^(defer )?\w+(\.\w+)*\.(Lock|Unlock|RLock|RUnlock)\(\)$|^logx\.`)
+		e.c16StmtList(s, ca, "Cache.Get", "cacheGetStatStmts")
+		e.c16StmtList(s, ca, "Cache.Take", "cacheTakeStatStmts")
+		c16Drop = c16DropSaved
+		// SetTimer rejects a non-positive delay (CacheG.setNoTimer)
+		e.c16StmtList(s, "core/collection/timingwheel.go", "TimingWheel.SetTimer", "wheelSetTimerStmts")
+		// lock frames (the interleaving models Conc.lean / ConcTake.lean: which lock, held over which statements)
+		e.c16LockFrame(s, ff, "Queue.Put", "queuePutLocks")
+		e.c16LockFrame(s, ff, "Queue.Take", "queueTakeLocks")
+		e.c16LockFrame(s, ff, "Queue.Empty", "queueEmptyLocks")
+		e.c16LockFrame(s, rg, "Ring.Add", "ringAddLocks")
+		e.c16LockFrame(s, rg, "Ring.Take", "ringTakeLocks")
+		e.c16LockFrame(s, sm, "SafeMap.Set", "safeMapSetLocks")
+		e.c16LockFrame(s, sm, "SafeMap.Del", "safeMapDelLocks")
+		e.c16LockFrame(s, sm, "SafeMap.Get", "safeMapGetLocks")
+		e.c16LockFrame(s, sm, "SafeMap.Size", "safeMapSizeLocks")
+		e.c16LockFrame(s, sm, "SafeMap.Range", "safeMapRangeLocks")
+		e.c16LockFrame(s, ca, "Cache.doGet", "cacheDoGetLocks")
+		e.c16LockFrame(s, ca, "Cache.Del", "cacheDelLocks")
+		e.c16LockFrame(s, ca, "Cache.SetWithExpire", "cacheSetLocks")
+		e.c16LockFrame(s, ca, "Cache.size", "cacheSizeLocks")
 		// the wheel the cache builds and its expiry callback
 		if fd := s.findFunc(ca, "NewCache"); fd != nil {
 			var wheel []string
